@@ -1266,39 +1266,53 @@ func runC20(c *Ctx) {
 				if pfd := findFunc(p, "", pfn.Name()); pfd != nil {
 					nonceTakenAsGiven(c, "C20.R4", pfd)
 					ntest := 0
+					// (the per-directive part of the parser may be a helper of its own)
+					searchBodies := []*ast.BlockStmt{pfd.Body}
 					ast.Inspect(pfd.Body, func(n ast.Node) bool {
-						is, ok := n.(*ast.IfStmt)
-						if !ok {
-							return true
-						}
-						names := map[string]bool{}
-						ast.Inspect(is.Cond, func(m ast.Node) bool {
-							if be, ok := m.(*ast.BinaryExpr); ok && (be.Op == token.NEQ || be.Op == token.EQL) {
-								for _, side := range []ast.Expr{be.X, be.Y} {
-									if sv, isC := constString(info, side); isC && strings.HasSuffix(sv, "-src") || isC && strings.Contains(sv, "-src-") {
-										names[sv] = true
-									}
+						if hc, ok := n.(*ast.CallExpr); ok {
+							if hfn := calleeOf(info, hc); hfn != nil && hfn.Pkg() == p.Types {
+								if hfd := findFunc(p, "", hfn.Name()); hfd != nil && hfd != pfd && hfd.Body != nil {
+									searchBodies = append(searchBodies, hfd.Body)
 								}
 							}
-							return true
-						})
-						if len(names) == 0 {
-							return true
 						}
-						ntest++
-						var list []string
-						other := ""
-						for nm := range names {
-							list = append(list, nm)
-							if !strings.HasPrefix(nm, "script-src") {
-								other = nm
-							}
-						}
-						sort.Strings(list)
-						c.check(other == "", "C20.R4", funcKey(p, pfd)+"|nonce-from-script-directive", c.pos(is.Pos()), "the nonce is taken from "+strings.Join(list, ", "),
-							fmt.Sprintf("%s takes the nonce from the first of %v that carries one: when a policy lists %s 'nonce-A' before script-src 'nonce-B', the reload script gets A, which the browser rejects because script-src overrides %s — live reload silently stops working under such a policy", pfd.Name.Name, list, other, other))
 						return true
 					})
+					for _, sb := range searchBodies {
+						ast.Inspect(sb, func(n ast.Node) bool {
+							is, ok := n.(*ast.IfStmt)
+							if !ok {
+								return true
+							}
+							names := map[string]bool{}
+							ast.Inspect(is.Cond, func(m ast.Node) bool {
+								if be, ok := m.(*ast.BinaryExpr); ok && (be.Op == token.NEQ || be.Op == token.EQL) {
+									for _, side := range []ast.Expr{be.X, be.Y} {
+										if sv, isC := constString(info, side); isC && strings.HasSuffix(sv, "-src") || isC && strings.Contains(sv, "-src-") {
+											names[sv] = true
+										}
+									}
+								}
+								return true
+							})
+							if len(names) == 0 {
+								return true
+							}
+							ntest++
+							var list []string
+							other := ""
+							for nm := range names {
+								list = append(list, nm)
+								if !strings.HasPrefix(nm, "script-src") {
+									other = nm
+								}
+							}
+							sort.Strings(list)
+							c.check(other == "", "C20.R4", funcKey(p, pfd)+"|nonce-from-script-directive", c.pos(is.Pos()), "the nonce is taken from "+strings.Join(list, ", "),
+								fmt.Sprintf("%s takes the nonce from the first of %v that carries one: when a policy lists %s 'nonce-A' before script-src 'nonce-B', the reload script gets A, which the browser rejects because script-src overrides %s — live reload silently stops working under such a policy", pfd.Name.Name, list, other, other))
+							return true
+						})
+					}
 					if ntest == 0 {
 						c.viol("C20.R4", funcKey(p, pfd)+"|nonce-from-script-directive", c.pos(pfd.Pos()), pfd.Name.Name+" no longer selects the directive the nonce is taken from (any directive's nonce would be used)")
 					}
